@@ -80,17 +80,16 @@ def check_sites(ctx):
                   sample='for %s in %s' % (U(comp.target), U(comp.iter)))
         # ---- the twin
         enc = _enclosing_if(f.node, pcall)
-        if enc is None:
-            raise AnalysisError('%s: Parallel call is not inside an if/else with a serial twin' % f.where)
-        ifnode, part = enc
-        other = ifnode.orelse if part == 'body' else ifnode.body
+        ifnode, part = enc if enc is not None else (None, None)
         scalls = []
-        for st in other:
-            for c in ast.walk(st):
-                if isinstance(c, ast.Call):
-                    r = repo.resolve_call(f, c)
-                    if r is not None and r[0] is worker:
-                        scalls.append((c, r, st))
+        for c in repo.calls_in(f):
+            if c is elt or any(x is c for x in ast.walk(pcall)):
+                continue
+            r = repo.resolve_call(f, c)
+            if r is not None and r[0] is worker:
+                scalls.append((c, r, view.stmt_of(c)))
+        if ifnode is None:
+            ifnode = f.node
         if not ctx.check('R-SPLIT/twin', f, key0, len(scalls) == 1,
                          'serial branch does not call the parallel worker %s exactly once (found %d calls)'
                          % (worker.qual, len(scalls)), ifnode, sample='worker %s' % worker.qual):
@@ -101,6 +100,14 @@ def check_sites(ctx):
         it = view.expand(comp.iter, pstmt)
         n_expr = None
         direct_iter = None
+        extra_keep = ()
+        if isinstance(it, ast.Call) and call_name(it) == 'enumerate' and len(it.args) == 1 and not it.keywords \
+                and isinstance(comp.target, ast.Tuple) and len(comp.target.elts) == 2 \
+                and all(isinstance(x, ast.Name) for x in comp.target.elts):
+            # for index, split in enumerate(split_table(X, n)): the element is the split, the index only feeds the progress flag
+            extra_keep = (comp.target.elts[0].id,)
+            jobvar = comp.target.elts[1].id
+            it = it.args[0]
         if isinstance(it, ast.Call) and call_name(it) in ('range', 'xrange') and not it.keywords:
             if len(it.args) == 1:
                 n_expr = it.args[0]
@@ -113,7 +120,7 @@ def check_sites(ctx):
                       'jobs range over `%s`, not over range(<number of splits>)' % U(comp.iter), pcall)
             continue
         # ---- argument comparison
-        ex_keep = (jobvar,) if jobvar else ()
+        ex_keep = ((jobvar,) if jobvar else ()) + extra_keep
         diffs = []
         for p in worker.params:
             a_s, a_p = sbind.get(p), pbind.get(p)
@@ -178,13 +185,30 @@ def check_sites(ctx):
             ctx.check('R-SPLIT/guard', f, key0, w is None,
                       'the parallel branch can run with `%s` < 1 (no job, pd.concat of nothing); path condition: %s'
                       % (U(n_expr), show(pc)), ifnode, sample='parallel under %s' % show(pc))
+        # ---- the two twins are alternatives: never both on one path
+        conds_x = Conds(f.node, expander(view))
+        from ..guards import f_not
+        wx = Universe(int_atoms=lambda a: True).implies(conds_x.of(pstmt), f_not(conds_x.of(sstmt)))
+        # (a serial `return W(..)` ends the path, so whatever follows it runs under the negation)
+        ctx.check('R-SPLIT/exclusive', f, key0, wx is None,
+                  'the serial and the parallel call of %s can both run in one invocation' % worker.qual, pcall,
+                  sample='parallel only when the serial twin did not run')
         # ---- results: same variable defined in both branches; parallel via pd.concat(results)
         res_var = _assigned_name(pstmt)
         s_var = _assigned_name(sstmt)
         concat_ok = False
         out_var = None
-        if res_var is not None:
-            for st in (ifnode.body if part == 'body' else ifnode.orelse):
+        if res_var is not None and isinstance(sstmt, ast.Return):
+            # serial: return W(..) ; parallel: return pd.concat(<results>)
+            for st in conds_x.order:
+                if isinstance(st, ast.Return) and isinstance(st.value, ast.Call) and U(st.value.func) in ('pd.concat', 'pandas.concat', 'concat') \
+                        and st.value.args and isinstance(st.value.args[0], ast.Name) and st.value.args[0].id == res_var \
+                        and view.dominates(pstmt, st):
+                    concat_ok = True
+                    out_var = s_var = '<returned>'
+        elif res_var is not None:
+            scope = (ifnode.body if part == 'body' else ifnode.orelse) if part is not None else f.node.body
+            for st in scope:
                 if isinstance(st, ast.Assign) and isinstance(st.value, ast.Call) and U(st.value.func) in ('pd.concat', 'pandas.concat', 'concat'):
                     a0 = st.value.args[0] if st.value.args else None
                     if isinstance(a0, ast.Name) and a0.id == res_var:
@@ -221,10 +245,24 @@ def check_split_table(ctx):
     view = view_of(f)
     table_p, n_p = f.params[0], f.params[1]
     loops = [n for n in walk_own(f.node) if isinstance(n, ast.For)]
+    comp_form = None
+    if not loops:
+        # return [table[lo(i):hi(i)] for i in range(num_splits)]
+        for n in walk_own(f.node):
+            if isinstance(n, ast.ListComp) and len(n.generators) == 1 and isinstance(n.elt, ast.Subscript) \
+                    and isinstance(n.elt.slice, ast.Slice) and isinstance(n.elt.value, ast.Name) and n.elt.value.id == table_p:
+                comp_form = n
+        if comp_form is not None:
+            host = view.stmt_of(comp_form)
+            lp = ast.For(target=comp_form.generators[0].target, iter=comp_form.generators[0].iter, body=[host], orelse=[])
+            ast.copy_location(lp, comp_form)
+            lp._host = host
+            loops = [lp]
     if len(loops) != 1:
-        raise AnalysisError('%s: expected one loop building the splits' % f.where)
+        raise AnalysisError('%s: expected one loop (or comprehension) building the splits' % f.where)
     lp = loops[0]
-    it = view.expand(lp.iter, lp)
+    host = getattr(lp, '_host', lp)
+    it = view.expand(lp.iter, host)
     rng_ok = isinstance(it, ast.Call) and call_name(it) in ('range', 'xrange') and len(it.args) == 1 \
         and U(it.args[0]) == n_p and isinstance(lp.target, ast.Name)
     ctx.check('R-SPLIT/partition-range', f, 'loop', rng_ok,
@@ -233,16 +271,21 @@ def check_split_table(ctx):
         return
     i = lp.target.id
     slices = []
-    for n in ast.walk(lp):
+    for n in ast.walk(comp_form if comp_form is not None else lp):
         if isinstance(n, ast.Subscript) and isinstance(n.slice, ast.Slice) and isinstance(n.value, ast.Name) \
                 and n.value.id == table_p:
             slices.append(n)
     if len(slices) != 1 or slices[0].slice.step is not None:
         raise AnalysisError('%s: expected one slice %s[lo:hi] in the split loop' % (f.where, table_p))
     sl = slices[0]
-    st = view.stmt_of(sl)
+    st = view.stmt_of(sl) if comp_form is None else host
     lo = view.expand(sl.slice.lower, st, keep=(i,)) if sl.slice.lower is not None else ast.Constant(0)
     hi = view.expand(sl.slice.upper, st, keep=(i,)) if sl.slice.upper is not None else parse_expr('len(%s)' % table_p)
+    lo, hi = _through_boundary_list(view, lo, st, n_p), _through_boundary_list(view, hi, st, n_p)
+    if lo is None or hi is None:
+        ctx.check('R-SPLIT/partition-contiguous', f, 'boundaries', False,
+                  'the precomputed boundary list does not hold one entry per split plus one', sl)
+        return
     norm = Norm(erase=('float',))      # int() is kept: truncating an inexact float product is not rounding it
     try:
         lo_next = norm.visit(subst_names(lo, {i: parse_expr('%s + 1' % i)}))
@@ -280,11 +323,37 @@ def check_split_table(ctx):
     appends = [n for n in ast.walk(lp) if isinstance(n, ast.Call) and call_name(n) == 'append'
                and any(x is sl for x in ast.walk(n))]
     rets = [n for n in walk_own(f.node) if isinstance(n, ast.Return)]
-    ok = len(appends) == 1 and len(rets) == 1 and isinstance(rets[0].value, ast.Name) \
-        and isinstance(appends[0].func.value, ast.Name) and appends[0].func.value.id == rets[0].value.id
+    if comp_form is not None:
+        ok = len(rets) == 1 and (rets[0].value is comp_form or (
+            isinstance(rets[0].value, ast.Name) and any(d.value is comp_form for d in view.reaching(rets[0].value.id, rets[0]))))
+    else:
+        ok = len(appends) == 1 and len(rets) == 1 and isinstance(rets[0].value, ast.Name) \
+            and isinstance(appends[0].func.value, ast.Name) and appends[0].func.value.id == rets[0].value.id
     ctx.check('R-SPLIT/partition-order', f, 'append+return', ok,
               'slices are not appended in order to the returned list', lp, sample='append -> return')
     ctx.assume('round(num_splits * (len(table)/num_splits)) == len(table) in floating point for realistic sizes')
+
+
+def _through_boundary_list(view, e, st, n_p):
+    """`b[idx]` where b = [E(j) for j in range(K)] with K >= num_splits + 1  ->  E(idx); other expressions unchanged"""
+    if isinstance(e, ast.Subscript) and isinstance(e.value, ast.Name) and not isinstance(e.slice, ast.Slice):
+        ds = view.reaching(e.value.id, st)
+        if len(ds) == 1 and isinstance(ds[0].value, ast.ListComp) and len(ds[0].value.generators) == 1:
+            comp = ds[0].value
+            g = comp.generators[0]
+            if isinstance(g.iter, ast.Call) and call_name(g.iter) in ('range', 'xrange') and len(g.iter.args) == 1 \
+                    and isinstance(g.target, ast.Name) and not g.ifs:
+                try:
+                    norm = Norm()
+                    d = (norm.visit(g.iter.args[0]) - norm.visit(parse_expr('%s + 1' % n_p))).as_const()
+                except Unsupported:
+                    d = None
+                if d is None or d < 0:
+                    return None
+                elt = view.expand(comp.elt, ds[0].node, keep=(g.target.id,))
+                return subst_names(elt, {g.target.id: e.slice})
+        return e
+    return e
 
 
 def run(ctx, table=True):
